@@ -101,7 +101,7 @@ CLAIMED["C07"] = dict(
 CLAIMED["C18"] = dict(
     text="Effect contracts: every listed const operation has an empty shared-write frame on every path (no write inside a marked const region to storage initialised "
          "before it; const inputs and globals of group functions and sparse routines never written), which implies race freedom and schedule independence by "
-         "non-interference. No schedule is explored. Found and repaired: SubManifold's mutable scratch member. Covered: group functions, SubManifold/AnyManifold/variant, Spline and BSpline evaluation, diff::dr with const arguments, sparse routines; minimize and fit_* not covered.",
+         "non-interference. No schedule is explored. Found and repaired: SubManifold's mutable scratch member. Covered: group functions, SubManifold/AnyManifold/variant, Spline and BSpline evaluation, diff::dr with const arguments, sparse routines; code irsx cannot execute (fit_*, minimize, reparameterize) only through a syntactic supporting fact: every non-constexpr static / mutable / thread_local declaration in the headers is on a reviewed list.",
     note="A5 non-interference argument; A6 irsx memory model; A8; first-use initialisation of function-local statics executed sequentially only.",
     tech=IRSX + "byte-exact written-cell sets inside marked const regions (effect contracts)", ref="4 C18")
 
